@@ -502,6 +502,17 @@ class SymReal(_SymNum):
     __slots__ = ()
     is_real = True
 
+    def __round__(self, ndigits=None):
+        # round half even, exact on rationals (binary64 agrees unless the decimal tie is not representable)
+        scale = 10 ** (ndigits or 0)
+        r = self.e * scale
+        k = z3.ToInt(r + z3.RealVal(Fraction(1, 2)))
+        tie = z3.And(z3.ToReal(k) == r + z3.RealVal(Fraction(1, 2)), k % 2 == 1)
+        k = z3.If(tie, k - 1, k)
+        if ndigits is None:
+            return SymInt(k)
+        return SymReal(z3.ToReal(k) / scale)
+
     def __float__(self):
         raise EngineError('float() of a symbolic real')
 
